@@ -991,25 +991,28 @@ class Terminal:
                 while stop < len(data):
                     start = stop
                     stop = min(len(data), start + self.mbx_out_sz - 9)
-                    if stop == len(data):
-                        if stop - start < 7:
-                            cmd = 1 + (7-stop+start << 1)
-                            d = data[start:stop] + b"\0" * (7 - stop + start)
-                        else:
-                            cmd = 1
-                            d = data[start:stop]
-                        await self.mbx_send(
-                                MBXType.COE, "HBHB4x", CoECmd.SDOREQ.value << 12,
-                                cmd + toggle, index,
-                                1 if subindex is None else subindex, data=d)
-                        type, data = await self.mbx_recv()
+                    cmd = 1 if stop == len(data) else 0  # last segment?
+                    d = data[start:stop]
+                    if stop - start < 7:
+                        # pad to the minimum of 7, announce the unused bytes
+                        cmd += 7 - stop + start << 1
+                        d += b"\0" * (7 - stop + start)
+                    await self.mbx_send(
+                            MBXType.COE, "HB", CoECmd.SDOREQ.value << 12,
+                            cmd + toggle, data=d)
+                    type = None
+                    while type is not MBXType.COE:
+                        type, resp = await self.mbx_recv()
                         if type is not MBXType.COE:
-                            raise EtherCatError(f"expected CoE, got {type}")
-                        coecmd, sdocmd, idx, subidx = unpack("<HBHB", data[:6])
-                        if coecmd >> 12 != CoECmd.SDORES.value:
-                            raise EtherCatError(f"expected CoE SDORES")
-                        if idx != index or subindex != subidx:
-                            raise EtherCatError(f"requested index {index}")
+                            logging.warning(
+                                f"expected CoE package, got {type}, "
+                                f"for terminal {self.name}")
+                    coecmd, sdocmd = unpack("<HB", resp[:3])
+                    if coecmd >> 12 != CoECmd.SDORES.value:
+                        raise EtherCatError(f"expected CoE SDORES")
+                    if sdocmd != 0x20 + toggle:
+                        raise EtherCatError(
+                            f"segment not acknowledged: {sdocmd:x}")
                     toggle ^= 0x10
 
     async def read_object_entry(self, index, subidx):
